@@ -509,6 +509,7 @@ func main() {
 			}
 		}
 		check2D(r)
+		metaballStage(r)
 		checkConj3(r, 2)
 		checkConj2(r, 3)
 		r.NontrivialAdd(2)
@@ -534,6 +535,7 @@ func main() {
 		r.Set("wrapped_transforms", len(sel))
 	})
 	r.Isolate("2d", func() { check2D(r) })
+	r.Isolate("metaballs", func() { metaballStage(r) })
 	r.Isolate("conj", func() {
 		n := 2
 		if r.Thorough() {
